@@ -2,9 +2,13 @@ package props
 
 import (
 	"bytes"
+	"path/filepath"
+
 	"crypto/sha256"
 	"encoding/json"
 	"fmt"
+	"github.com/robfig/soy"
+	"github.com/robfig/soy/soyhtml"
 	"os"
 	"os/exec"
 	"sort"
@@ -83,6 +87,10 @@ func artefact2(c C13Case, order []int) (art string, imports int, suffixed bool, 
 	}
 	var b strings.Builder
 	cb, err, pn := compileBundle(on, os_, c.Prog.Prog.Globals)
+	if c13Dir != "" {
+		cb, err, pn = compileDir(c13Dir, on, os_, c.Prog.Prog.Globals)
+		defer func() { art = strings.ReplaceAll(art, c13Dir+string(filepath.Separator), "") }()
+	}
 	if pn != nil {
 		return fmt.Sprintf("panic: %v", pn), 0, false, nil
 	}
@@ -168,6 +176,41 @@ func artefact2(c C13Case, order []int) (art string, imports int, suffixed bool, 
 	return b.String(), imports, suffixed, repeatErr
 }
 
+// c13Dir, when set, makes artefact2 load the sources from files in that directory (AddTemplateDir,
+// AddGlobalsFile) instead of from strings.
+var c13Dir string
+
+func compileDir(dir string, names, srcs []string, globals map[string]ref.Value) (c *compiled, err error, panicked interface{}) {
+	os.RemoveAll(dir)
+	for i := range names {
+		p := filepath.Join(dir, names[i])
+		os.MkdirAll(filepath.Dir(p), 0o755)
+		if werr := os.WriteFile(p, []byte(srcs[i]), 0o644); werr != nil {
+			return nil, nil, fmt.Sprintf("harness: cannot write %s: %v", p, werr)
+		}
+	}
+	defer os.RemoveAll(dir)
+	panicked = catch(func() {
+		b := soy.NewBundle().AddTemplateDir(dir)
+		if len(globals) > 0 {
+			var gf strings.Builder
+			for _, k := range ref.SortedKeys(globals) {
+				fmt.Fprintf(&gf, "%s = %s\n", k, gen.PrintExpr(gen.Lit(globals[k])))
+			}
+			gp := filepath.Join(dir, "globals.txt")
+			os.WriteFile(gp, []byte(gf.String()), 0o644)
+			b.AddGlobalsFile(gp)
+		}
+		reg, e := b.Compile()
+		if e != nil {
+			err = e
+			return
+		}
+		c = &compiled{soyhtml.NewTofu(reg), reg}
+	})
+	return
+}
+
 func sum(s string) string { return fmt.Sprintf("%x", sha256.Sum256([]byte(s)))[:16] }
 
 func identityOrder(n int) []int {
@@ -248,6 +291,15 @@ func checkC13(c C13Case) Verdict {
 				continue // which of several independent errors is reported first may depend on the order
 			}
 			return bad(true, "file order %v produced a different artefact; first difference at %s\n%s", o, firstDiff(base, perm), showSources(names, srcs))
+		}
+	}
+	// the same sources loaded from a directory of files
+	if len(c.SyntaxErrors)+b2i(c.BreakFile >= 0) < 2 {
+		c13Dir = filepath.Join(outDir(), "c13-dir-"+shard())
+		fromDir, _, _, _ := artefact2(c, identityOrder(n))
+		c13Dir = ""
+		if fromDir != base {
+			return bad(true, "the sources loaded from a directory (AddTemplateDir / AddGlobalsFile) produce a different artefact than the same sources added as strings; first difference at %s\n%s", firstDiff(base, fromDir), showSources(names, srcs))
 		}
 	}
 	// child processes (a fresh hash seed, fresh init order)
